@@ -27,7 +27,23 @@ pub struct ListCase {
 
 fn build(v: &MVersion, via_parse: bool) -> Result<Version, Failure> {
     if via_parse {
-        let t = v.text();
+        // every fourth version spells its numeric identifiers with a leading zero: still the same numbers
+        let pad = crate::engine::hash_of(&v.text()) % 4 == 0;
+        let t = if pad && v.pre.iter().chain(v.build.iter()).any(|i| matches!(i, MId::Num(_))) {
+            let ids = |l: &Vec<MId>| l.iter().map(|i| match i { MId::Num(n) => format!("0{}", n), MId::Str(s) => s.clone() }).collect::<Vec<_>>().join(".");
+            let mut t = format!("{}.{}.{}", v.major, v.minor, v.patch);
+            if !v.pre.is_empty() {
+                t.push('-');
+                t.push_str(&ids(&v.pre));
+            }
+            if !v.build.is_empty() {
+                t.push('+');
+                t.push_str(&ids(&v.build));
+            }
+            t
+        } else {
+            v.text()
+        };
         if t.len() <= max_len() {
             return match guard(|| Version::parse(&t)) {
                 // the parsed value is compared as it is: if the parser reads a canonical text differently
